@@ -639,7 +639,7 @@ func run(c *hx.Ctx) error {
 	if p := os.Getenv("VERIF_C29_EXPLAIN"); p != "" { // development aid: one Go-quoted document per line
 		return explainFile(p)
 	}
-	res.Rule = "cases for the real code (run inside cmd/scriggo's tag-guarded test): (1) generated Markdown documents of 1-4 blocks from the construct list of the property (inline links and images with bare / angle / empty destinations, titles in the three quote forms, reference definitions and uses, code spans, fenced and indented code, HTML blocks, raw-text elements, comments, inline HTML, lists, block quotes, headings, escaped brackets and parentheses, nested brackets) through linkDestinationReplacer.replace with base https://example.com/base, dir docs; (2) random sources with random replacement lists (valid, overlapping, out of range) through applyReplacements; (3) a backslash / U+00A0 dictionary, its pairs and random bytes through markdownURLEscape and markdownUnescape; (4) generated lines x positions through parseDestination, parseTitle, findLabelEnd; a case is non-trivial when it has a link construct / a replacement / a backslash or C2 byte; distinct by (op, input)"
+	res.Rule = "cases for the real code (run inside cmd/scriggo's tag-guarded test): (1) generated Markdown documents of 1-4 blocks from the construct list of the property (inline links and images with bare / angle / empty destinations, titles in the three quote forms, reference definitions and uses, code spans, fenced and indented code, HTML blocks, raw-text elements, comments, inline HTML, lists, block quotes, headings, escaped brackets and parentheses, nested brackets) through linkDestinationReplacer.replace with base https://example.com/base, dir docs; (2) random sources with random replacement lists (valid, overlapping, out of range) through applyReplacements; (3) a backslash / U+00A0 dictionary, its pairs and random bytes through markdownURLEscape and markdownUnescape; (4) generated lines x positions through parseDestination, parseTitle, findLabelEnd; (5) for the finding classes' precision self-test, per class 300 documents for which the class predicts a wrong rewriting, from per-class generators (classgens.go), one in three inside a document of (1); a case is non-trivial when it has a link construct / a replacement / a backslash or C2 byte; distinct by (op, input)"
 
 	var cases []tcase
 	var keys []string
@@ -901,13 +901,14 @@ func run(c *hx.Ctx) error {
 			// the oracle names the destination that is resolved wrongly: try it alone first
 			if q, err := strconv.QuotedPrefix(strings.TrimPrefix(detail, "raw ")); err == nil {
 				raw, _ := strconv.Unquote(q)
-				mr, ok := minimalByRaw[raw]
+				// (the same failure: same raw destination, same wrong URL, same expected URL)
+				mr, ok := minimalByRaw[detail]
 				if !ok {
 					doc := "[](" + raw + ")"
-					if cls, dets, rs, err := evalDocsR([]string{doc}); err == nil && cls[0] == cl {
+					if cls, dets, rs, err := evalDocsR([]string{doc}); err == nil && cls[0] == cl && dets[0] == detail {
 						mr = minimalRaw{doc, dets[0], rs[0], true}
 					}
-					minimalByRaw[raw] = mr
+					minimalByRaw[detail] = mr
 				}
 				if mr.ok {
 					report("property", cl, "C29 replace "+proto.Hex([]byte(mr.doc)), fmt.Sprintf("document %q (found with %q)", mr.doc, d), mr.detail, "", classify(c, mr.doc, cl, mr.detail, mr.res))
